@@ -28,7 +28,7 @@ Proof. intros st i Q. exact (proj2 (proj2 (proj2 (proj2 (graph_matches_cache st 
 Print Assumptions C09_uncached_hold_nothing.
 
 Theorem C09_histories_with_flag_changes : forall fuel cells refs maxd ops xs st,
-  defs_ok cells -> refn_ok (init cells refs maxd) -> ops_ok2 fuel (init cells refs maxd) ops ->
+  refn_ok (init cells refs maxd) -> ops_ok2 fuel (init cells refs maxd) ops ->
   run fuel (init cells refs maxd) ops = (xs, st) -> no_fuel_out xs -> s_reent st = false ->
   Quiet st /\
   (forall i v, lookup_data (s_data st) i = Some v ->
